@@ -567,3 +567,37 @@ VARIANTS += [
       "distance_matrix = cdist(self.contexts, row_2d, metric=self.metric)\n"
       "distances_to_row = distance_matrix.reshape(-1)", benign=True),
 ]
+
+# ---------------------------------------------------------------------------------------------------- C09
+VARIANTS += [
+    V("c09-m1", "C09", "utils", "argmax", "return max(dictionary, key=dictionary.get)",
+      "return min(dictionary, key=dictionary.get)", "R9.1", why="argmax returns the minimum"),
+    V("c09-m2", "C09", "ucb", "_UCB1.predict", "expectations = self.predict_expectations(contexts)",
+      "self.rng.rand()\nexpectations = self.predict_expectations(contexts)", None,
+      why="predict consumes the stream before asking for expectations"),
+    V("c09-m3", "C09", "linear", "_Linear._vectorized_predict_context",
+      "predictions = arms[np.argmax(arm_expectations, axis=1)].tolist()",
+      "predictions = arms[np.argmax(arm_expectations[:, ::-1], axis=1)].tolist()", "R9.2",
+      why="ties resolved towards the last arm and columns mirrored"),
+    V("c09-m4", "C09", "clusters", "_Clusters._predict_contexts",
+      "predictions[index] = lp_list[cluster].predict(row_2d)",
+      "lp_list[cluster].predict_expectations(row_2d)\npredictions[index] = lp_list[cluster].predict(row_2d)", "R9.2",
+      why="prediction taken one draw later than the expectations"),
+    V("c09-m5", "C09", "treebandit", "_TreeBandit._predict_contexts",
+      "predictions[index] = argmax(arm_to_expectation)",
+      "predictions[index] = max(arm_to_expectation, key=lambda a: (arm_to_expectation[a], str(a)))", "R9.2",
+      why="ties broken by label instead of arm order"),
+    V("c09-m6", "C09", "thompson", "_ThompsonSampling.predict",
+      "if isinstance(expectations, dict):\n    return argmax(expectations)\nelse:\n    "
+      "return [argmax(exp) for exp in expectations]",
+      "if isinstance(expectations, dict):\n    return argmax(expectations)\nelse:\n    "
+      "return [argmax(exp) for exp in reversed(expectations)]", "R9.1", why="rows answered in reverse order"),
+    V("c09-m7", "C09", "neighbors", "_Neighbors._get_nhood_predictions", "return lp.predict(row_2d)",
+      "expectations = lp.predict_expectations(row_2d)\nreturn sorted(expectations, key=expectations.get)[-1]",
+      "R9.2", why="last maximum instead of first"),
+    V("c09-b1", "C09", "neighbors", "_Neighbors._get_nhood_predictions", "return lp.predict(row_2d)",
+      "prediction = lp.predict(row_2d)\nreturn prediction", benign=True),
+    V("c09-b2", "C09", "treebandit", "_TreeBandit._predict_contexts",
+      "predictions[index] = argmax(arm_to_expectation)",
+      "best_arm = argmax(arm_to_expectation)\npredictions[index] = best_arm", benign=True),
+]
